@@ -192,7 +192,7 @@ _WORLD_K = {'C15': 2, 'C03': 2}
 _WORLD_EXTRA = {
     'C02': ([(3, 1, 3)], [(3, 1, 4)]),
     'C08': ([(3, 0, 3)], []),
-    'C19': ([(3, 0, 4), (2, 0, 6)], []),
+    'C19': ([(3, 0, 4), (2, 0, 5)], []),
     'C01': ([(3, 1, 4)], []),
     'C17': ([(1, 2, 8)], [(1, 3, 10)]),      # one module, deeper: stop from inside a handler, restart, then deliveries
     'C16': ([(1, 3, 5)], [(1, 4, 8)]),      # one module, deeper: handlers invoked by unstash that stash / unstash / stop again
@@ -200,11 +200,14 @@ _WORLD_EXTRA = {
 _WORLD_EXTRA_PROFILE = {      # further profiles of harness/world.c run under the same property: [(quick, thorough)], each (profile, modules, deviations, depth)
     'C03': [(('C03E', 2, 0, 3), ('C03E', 2, 0, 5))],      # signal / path / pid events
     'C02': [(('C02O', 1, 0, 7), ('C02O', 2, 0, 7))],      # one-shot subscriptions: used up by the first message sent under them, wherever it is handed over
-    'C07': [(('C07O', 1, 0, 8), ('C07O', 2, 0, 8))],      # context registered with NAME_DUP / auto-free name and user data
+    'C07': [(('C07O', 1, 0, 8), ('C07O', 2, 0, 8)),
+            (('C07D', 1, 1, 4), ('C07D', 2, 2, 5))],      # context calls (also a second m_ctx_register) armed inside callbacks of plain and DENY_CTX modules      # context registered with NAME_DUP / auto-free name and user data
+    'C19': [(('C19T', 1, 0, 6), ('C19T', 2, 0, 7))],      # tick period changed while the loop runs: never more often than the period in force
     'C13': [(('C13B', 1, 0, 5), ('C13B', 1, 0, 7))],      # batching and priorities on a module that also has a token bucket (refill ticks are internal timer events)
     'C04': [(('C04F', 2, 1, 5), ('C04F', 2, 2, 6))],      # messages and pills in flight, re-entrant stop/deregister from the handler, final flush
     'C20': [(('C20T', 1, 1, 5), ('C20T', 2, 2, 6))],      # the context tick: set / cleared at top level and from callbacks, also while the loop stops
-    'C09': [(('C09S', 1, 0, 6), ('C09S', 1, 0, 8)),       # subscriptions alone (DUP topics, auto-free user data, replacement)
+    'C09': [(('C09S', 1, 0, 6), ('C09S', 1, 0, 8)),
+            (('C09T', 1, 0, 4), ('C09T', 1, 0, 6)),       # user timers next to the library's internal ones (bucket refill 1 ms = timer #1, batch timeout)       # subscriptions alone (DUP topics, auto-free user data, replacement)
             (('C09X', 1, 0, 3), ('C09X', 1, 0, 4))],      # sources and subscriptions together
 }
 for _p, (_q, _t) in _WORLD.items():
@@ -230,16 +233,16 @@ CHECKS['C14'] = dict(
     title='independent contexts, thread-confined modules',
     rule='every interleaving (scheduling points between API calls of each thread and at every pthread operation inside the library) of N threads each running its own context '
          'program, within the preemption budget; per schedule: TSan (tsan part) / ASan (asan part) and per-context observation log identical to the same program run alone; '
-         'plus every module call from a foreign thread (holding another context, or none) must fail with a permission error without effect',
+         'plus every module call from a foreign thread (holding another context, or none; made while the owner is outside callbacks, and while it executes the attacked module\'s own event handler) must fail with a permission error without effect',
     bounds=dict(quick='2 threads: narrow program budget 3, wide program budget 2, task program budget 2; foreign-thread calls budget 2; TSan + ASan',
                 thorough='3 threads narrow budget 3; 2 threads wide budget 3, task budget 3; TSan + ASan'),
     assumptions=['sequentially consistent interleavings; scheduling points only between API calls and at pthread operations (data races inside a call are left to TSan happens-before analysis)'],
     parallel=2,
     parts=[schedx_part('tsan', 'c14_ctx', ALL_LIBS, variant='tsan',
-                       quick=[_c14_runs(2, 'narrow', 3, 100), _c14_runs(2, 'wide', 2, 100), _c14_runs(2, 'task', 2, 100), _c14_runs(2, 'narrow', 2, 100, 1), _c14_runs(2, 'narrow', 2, 100, 2)],
-                       thorough=[_c14_runs(3, 'narrow', 3, 1500), _c14_runs(2, 'wide', 3, 1500), _c14_runs(2, 'task', 3, 1500), _c14_runs(2, 'narrow', 3, 600, 1), _c14_runs(2, 'narrow', 3, 600, 2)]),
+                       quick=[_c14_runs(2, 'narrow', 3, 100), _c14_runs(2, 'wide', 2, 100), _c14_runs(2, 'task', 2, 100), _c14_runs(2, 'narrow', 2, 100, 1), _c14_runs(2, 'narrow', 2, 100, 2), _c14_runs(2, 'narrow', 2, 100, 3), _c14_runs(2, 'narrow', 2, 100, 4)],
+                       thorough=[_c14_runs(3, 'narrow', 3, 1500), _c14_runs(2, 'wide', 3, 1500), _c14_runs(2, 'task', 3, 1500), _c14_runs(2, 'narrow', 3, 600, 1), _c14_runs(2, 'narrow', 3, 600, 2), _c14_runs(2, 'narrow', 3, 600, 3), _c14_runs(2, 'narrow', 3, 600, 4)]),
            schedx_part('asan', 'c14_ctx', ALL_LIBS,
-                       quick=[_c14_runs(2, 'wide', 2, 100), _c14_runs(2, 'task', 2, 100), _c14_runs(2, 'narrow', 2, 100, 1)],
+                       quick=[_c14_runs(2, 'wide', 2, 100), _c14_runs(2, 'task', 2, 100), _c14_runs(2, 'narrow', 2, 100, 1), _c14_runs(2, 'narrow', 2, 100, 3)],
                        thorough=[_c14_runs(3, 'narrow', 2, 900), _c14_runs(2, 'wide', 2, 900), _c14_runs(2, 'task', 2, 900)])],
 )
 
